@@ -9,7 +9,8 @@ Import ListNotations.
    identifier values, generated identifiers fresh, the low-level store() is not handed a second persistent
    identifier for a triple), persistent identifiers are stable, pairwise distinct and map back exactly;
    issued identifiers have a value; transient identifiers are fresh; NewID / Terminate are local; the store
-   is consistent after every step.  No guard. *)
+   is consistent after every step; what is issued is what the store holds; the reverse lookup answers the
+   current store.  No guard. *)
 Theorem c18_ident : forall cfg is_user ops, ident_spec cfg is_user (mtrace cfg [] ops).
 Proof. exact ident_holds. Qed.
 Print Assumptions c18_ident.
@@ -39,6 +40,31 @@ Theorem c18_manage_local : forall cfg is_user ops,
   wf cfg is_user (mtrace cfg [] ops) -> all_events manage_event (mtrace cfg [] ops).
 Proof. exact manage_local. Qed.
 Print Assumptions c18_manage_local.
+
+(* (strengthening round 2) what an issuing operation hands out is what the store holds: the answered NameID is
+   of the format and for the requester / qualifier asked for, maps back to the user in the state the operation
+   leaves behind, and its encoding is one of the elements stored for that user *)
+Theorem c18_issued_is_stored : forall cfg is_user ops,
+  wf cfg is_user (mtrace cfg [] ops) -> all_events (issued_event cfg) (mtrace cfg [] ops).
+Proof. exact issued_is_stored. Qed.
+Print Assumptions c18_issued_is_stored.
+
+(* (strengthening round 2) find_local_id answers the reverse entry of the CURRENT store, nothing else *)
+Theorem c18_findlocal_is_store : forall cfg is_user ops,
+  wf cfg is_user (mtrace cfg [] ops) -> all_events findlocal_event (mtrace cfg [] ops).
+Proof. exact findlocal_is_store. Qed.
+Print Assumptions c18_findlocal_is_store.
+
+(* the two new parts are independent of the former seven (observed traces of a stale memo / stale reverse cache) *)
+Theorem c18_new_parts_independent :
+  (wf ex_cfg ex_user ex_stale
+   /\ ident_spec_parts_b ex_cfg ex_user ex_stale = [true; true; true; true; true; true; true; false; true]
+   /\ ~ ident_spec ex_cfg ex_user ex_stale)
+  /\ (wf ex_cfg ex_user ex_stale_rev
+      /\ ident_spec_parts_b ex_cfg ex_user ex_stale_rev = [true; true; true; true; true; true; true; true; false]
+      /\ ~ ident_spec ex_cfg ex_user ex_stale_rev).
+Proof. exact new_parts_independent. Qed.
+Print Assumptions c18_new_parts_independent.
 
 (* invariant of every reachable state: each stored identifier has its reverse entry and vice versa *)
 Theorem c18_reachable_inv : forall cfg is_user ops,
